@@ -52,7 +52,64 @@ func caseLines(s scn, ro *runOut) []string {
 		lines = append(lines, "sys "+ev.Call)
 	}
 	lines = append(lines, "end", "readers", "check", "temps")
+	if pl := progLine(s); pl != "" {
+		lines = append(lines, pl)
+	}
 	return lines
+}
+
+// progLine names the Lean program (PB.Model.FsWriters) this writer is modelled by, with the parameters the Go
+// code gets from its caller / environment. The driver checks that the recorded run is a path of that program
+// and says how the program returns; the executor answers with how the real call returned.
+func progLine(s scn) string {
+	tmpdir := map[string]string{"same": "R/tmp", "explicit": "R/tmp", "cross": "X", "bad": "R/missing"}[s.TmpMode]
+	optdir := "-"
+	if s.TmpMode == "explicit" {
+		optdir = "R/tmp2"
+	}
+	switch s.Writer {
+	case "rio-writefile":
+		return fmt.Sprintf("prog writefile tmpdir=%s mode=%s", tmpdir, s.Perm)
+	case "fstree-put":
+		if s.Var == "nested" {
+			return "" // first attempt fails, MkdirAll, second attempt: not modelled as a program
+		}
+		return fmt.Sprintf("prog writefile tmpdir=%s mode=644", tmpdir)
+	case "rio-symlink":
+		return "prog symlink target=new-target mode=0"
+	case "create-atomic":
+		mode := s.Perm
+		if s.Var == "nilopts" {
+			mode, optdir = "0", "-"
+		}
+		rf := "0"
+		if s.Fail == "reader" {
+			rf = "1"
+		}
+		return fmt.Sprintf("prog createatomic tmpdir=%s optdir=%s mode=%s readfails=%s", tmpdir, optdir, mode, rf)
+	case "copy-atomic", "replace-atomic":
+		if s.Fail == "nosrc" {
+			return "prog nothing mode=0"
+		}
+		mode := s.Perm
+		if mode == "0" {
+			mode = "640" // the mode of the source file
+			if s.Writer == "replace-atomic" && s.Old == "file" {
+				mode = "644" // the mode of the existing destination
+			}
+			if s.Writer == "replace-atomic" && s.Old == "file400" {
+				mode = "400"
+			}
+		}
+		return fmt.Sprintf("prog createatomic tmpdir=%s optdir=%s mode=%s readfails=0", tmpdir, optdir, mode)
+	case "file-unpack":
+		rf := "0"
+		if s.Fail == "corrupt" {
+			rf = "1"
+		}
+		return fmt.Sprintf("prog fileunpack tmpdir=%s optdir=R/dst/tmp mode=0 readfails=%s", tmpdir, rf)
+	}
+	return ""
 }
 
 // ---- executor ---------------------------------------------------------------------------------------------------
@@ -140,6 +197,16 @@ func (e *c17exec) Do(line string) string {
 			return "unsafe"
 		}
 		return "safe"
+	case "prog":
+		switch {
+		case !e.ro.res.Completed:
+			return "ok ret=-"
+		case strings.Contains(e.ro.res.WriterOut, "result: ok"):
+			return "ok ret=ok"
+		case strings.Contains(e.ro.res.WriterOut, "result: err"):
+			return "ok ret=err"
+		}
+		return "ok ret=?"
 	case "temps":
 		// acceptor line: the model checks that every name the run created is the destination, on the way to it,
 		// or temporary; the monitor checks the same on the real final snapshot
